@@ -308,7 +308,9 @@ ENTRY = {
                                             n='int:n')],
 }
 
-DEFAULT_SPLIT = {'svd.matrix_svd': ['m <= n']}
+DEFAULT_SPLIT = {'svd.matrix_svd': ['m <= n'],
+                 'tensors.const': ['abs(v) > 1.E-16'],
+                 'tensors.delta': ['abs(v) > 1.E-16']}
 
 
 def build(spec, name, d, label=True):
